@@ -53,21 +53,21 @@ func matchKnown(known []knownFinding, prop, harness, msg string) *knownFinding {
 }
 
 type harnessEvidence struct {
-	Harness      string         `json:"harness"`
-	Params       map[string]int `json:"params"`
-	Paths        int            `json:"paths"`
-	Steps        int            `json:"ssa_instructions"`
-	Outcomes     map[string]int `json:"outcomes"`
-	PathsAssert  int            `json:"paths_reaching_all_assertions"`
-	Assertions   int            `json:"assertion_queries"`
-	Queries      int            `json:"solver_queries"`
-	Unsat        int            `json:"unsat"`
-	Sat          int            `json:"sat"`
-	Unknown      int            `json:"unknown"`
-	SolverS      float64        `json:"solver_cpu_s"`
-	WallS        float64        `json:"wall_s"`
-	WitnessOK    int            `json:"witnesses_replayed_natively_ok"`
-	Note         string         `json:"note,omitempty"`
+	Harness     string         `json:"harness"`
+	Params      map[string]int `json:"params"`
+	Paths       int            `json:"paths"`
+	Steps       int            `json:"ssa_instructions"`
+	Outcomes    map[string]int `json:"outcomes"`
+	PathsAssert int            `json:"paths_reaching_all_assertions"`
+	Assertions  int            `json:"assertion_queries"`
+	Queries     int            `json:"solver_queries"`
+	Unsat       int            `json:"unsat"`
+	Sat         int            `json:"sat"`
+	Unknown     int            `json:"unknown"`
+	SolverS     float64        `json:"solver_cpu_s"`
+	WallS       float64        `json:"wall_s"`
+	WitnessOK   int            `json:"witnesses_replayed_natively_ok"`
+	Note        string         `json:"note,omitempty"`
 }
 
 func fileHash(path string) string {
